@@ -15,6 +15,21 @@ CHECKS={
  "C04":("exploration","runtime monitoring: structural invariant auditor (full raw-store scan at quiescent points) over simulated replica histories + genesis byte-equality across nodes",
         "Held on the explored set: after every step the auditor re-hashes every stored block, resolves every link of every merged commit, re-derives heights, and compares stored head sets (raw and latestCommits) with the maximal merged commits; genesis blocks of the same document on two nodes are byte-compared (unsigned and shared ed25519 identity).",
         "Merged set = commits whose creation or merge returned success (ancestor closed); audits run with no concurrent writer, so no transient state is judged.","6/C04"),
+ "C06":("exploration","runtime monitoring: lock-step snapshot-isolation reference model over deterministic single-goroutine interleavings of explicit transactions (all interleavings of bounded program pairs + random 3-transaction schedules), raw-store and event-bus side monitors",
+        "Held on the explored set: every in-transaction read equals snapshot + own writes, every observer read equals the committed state, raw store and event bus change only at a successful commit, failed/discarded transactions leave no trace, and of two overlapping writers of one document the second commit fails. Spurious conflicts are counted, never flagged.",
+        "Schedules are sequences of API calls from one goroutine (thread-level interleavings are C16's business). The corekv memory store violates snapshot reads (dependency defect, known finding); badger is the store the verdict is about.","6/C06"),
+ "C11":("exploration","runtime monitoring: unique-token secrets + byte-level scanner over the raw block store and every update event, with a positive control in every case; key-holding and key-less receivers fed by block-closure copy + merge hook",
+        "Held on the explored set: after every operation no encoding (UTF-8, CBOR int/float image, JSON text) of any secret written to an encrypted field occurs in /db/blocks or in an update event's block, key bytes occur only under /db/enc, key-holding receivers read back exactly, key-less receivers store nothing in clear. A case whose positive control (token in a non-encrypted field) is not found does not count.",
+        "The receiver's enc-keys-request is answered by the harness from the writer's key store, as internal/kms does. One recorded known finding (field declared encrypted but unset at create).","6/C11"),
+ "C12":("exploration","runtime monitoring: tamper matrix over every signed block (21 single-field mutations x 2 key types) checked against DB.VerifySignature and the receive path (hook VerifSyncDAG with an offline block service), with an untampered negative control",
+        "Held on the explored set: every signed block verifies under the signer's key and fails under a fresh key of the same and of the other type; every tampered re-encoding fails verification, is rejected by the receive path and leaves the receiver's documents and heads unchanged; the untampered block is accepted and changes the receiver.",
+        "Receive path exercised through hook H2 (syncDAG) + H1 (merge) without a network. A rejected forged block remaining as an unreachable orphan in the block store is a note, not a violation.","6/C12"),
+ "C15":("exploration","runtime monitoring: real libp2p nodes on loopback with outage/restart/patch schedules, each paired with its outage-free control; clock-free quiescence criterion over the sender's peer store, in-flight pushes (gRPC interceptors) and receiver merge events",
+        "Bounded restatement of 'eventually': a schedule is a violation only if B lacks a head of A while nothing remains in the system that could ever deliver it (no retry record, no push or merge in flight, observed unchanged 14 times), or the same push fails repeatedly without progress (livelock), and the control converged; pending work at the deadline is inconclusive, never a violation.",
+        "Liveness is decided only within the explored schedules and bound; libp2p over 127.0.0.1; two recorded known findings (pubsub-only has no redelivery; reconnect during peer start-up livelock).","6/C15"),
+ "C16":("exploration","Go race detector (-race build, reports parsed from GORACE logs and de-duplicated by outermost DefraDB frame pair) + porcupine linearizability check of recorded per-document histories + conservation monitor, under concurrent mixed workloads with storage-call yield injection",
+        "Held on the executions produced: no race report or crash with a DefraDB frame, every per-document history of acknowledged operations is linearizable against a register+counter model (checker timeout = inconclusive partition), successful writes are present, failed ones absent, counters equal the acknowledged increments; incoming merges run through the unhooked asynchronous bus path.",
+        "Absence of a race report is not absence of races; covers the interleavings that repeated randomized runs produce at GOMAXPROCS 2/8/16. Two recorded known findings (create vs CreateIndex phantom).","6/C16"),
  "C14":("exploration","runtime monitoring: lock-step twin (file-store node closed/reopened vs never-restarted in-memory node) + replay of every commit-boundary crash prefix from a recorded commit log",
         "Held on the explored set: generated histories of schema, index, document, ACP and peer-configuration operations with 1-4 restarts; after each restart the full dump (documents incl. deleted, commits, collections incl. inactive versions, schemas, indexes, identifier tables, peer configuration) equals the pre-close dump and the twin's, and every later operation result (assigned ids, docIDs, cids, errors) equals the twin's; for crash histories a DB is opened on the store as of every completed commit and compared with the dump recorded at that operation boundary.",
         "Crash points are commit boundaries of the key-value store: the atomicity of a corekv/badger commit is trusted (torn writes inside a commit are not generated). Counters/signing are not generated so that cids agree across twins.","6/C14"),
